@@ -70,6 +70,18 @@ impl State {
         res
     }
 
+    /// A comment is trivia: it neither opens nor closes a block, whatever its
+    /// indentation. The newlines before it are released so that tokens stay in source
+    /// order.
+    pub fn comment(&mut self, token: Token) -> Vec<Lex> {
+        self.token_this_line = true;
+        let mut res: Vec<Lex> = self.newlines.drain(..).collect();
+        let lex = Lex::new(self.pos, token);
+        self.pos = lex.pos.end;
+        res.push(lex);
+        res
+    }
+
     fn newline(&mut self) {
         self.newlines.push(Lex::new(self.pos, Token::NL));
         self.token_this_line = false;
